@@ -125,7 +125,7 @@ Proof. vm_compute. reflexivity. Qed.
 Example O01_body_goose_Ctx_assignFromTo :
   has_body func_bodies "goose.Ctx.assignFromTo"
     "func(s ast.Node, lhs ast.Expr, rhs coq.Expr) coq.Binding"
-    "{ switch lhs := lhs.(type) { case *ast.Ident: if lhs.Name == ""_"" { return coq.NewAnon(rhs) } if ctx.isPtrWrapped(lhs) { return ctx.pointerAssign(lhs, rhs) } ctx.unsupported(s, ""variable %s is not assignable\n\t(declare it with 'var' to pointer-wrap in GooseLang and support re-assignment)"", lhs.Name) case *ast.IndexExpr: targetTy := ctx.typeOf(lhs.X) switch targetTy := targetTy.(type) { case *types.Slice: value := rhs return coq.NewAnon(coq.NewCallExpr( coq.GallinaIdent(""SliceSet""), ctx.coqTypeOfType(lhs, targetTy.Elem()), ctx.expr(lhs.X), ctx.expr(lhs.Index), value)) case *types.Map: value := rhs return coq.NewAnon(coq.NewCallExpr( coq.GallinaIdent(""MapInsert""), ctx.expr(lhs.X), ctx.expr(lhs.Index), value)) default: ctx.unsupported(s, ""index update to unexpected target of type %v"", targetTy) } case *ast.StarExpr: info, ok := ctx.getStructInfo(ctx.typeOf(lhs.X)) if ok && info.throughPointer { return coq.NewAnon(coq.NewCallExpr(coq.GallinaIdent(""struct.store""), coq.StructDesc(info.name), ctx.expr(lhs.X), rhs)) } dstPtrTy, ok := ctx.typeOf(lhs.X).Underlying().(*types.Pointer) if !ok { ctx.unsupported(s, ""could not identify element type of assignment through pointer"") } return coq.NewAnon(coq.StoreStmt{ Dst: ctx.expr(lhs.X), Ty: ctx.coqTypeOfType(s, dstPtrTy.Elem()), X: rhs, }) case *ast.SelectorExpr: ty := ctx.typeOf(lhs.X) info, ok := ctx.getStructInfo(ty) var structExpr coq.Expr if info.throughPointer { structExpr = ctx.expr(lhs.X) } else { if x, isIdent := lhs.X.(*ast.Ident); isIdent && ok && !ctx.isPtrWrapped(x) { ctx.unsupported(s, ""variable %s is not assignable\n\t(declare it with 'var' to pointer-wrap in GooseLang and support re-assignment)"", x.Name) } structExpr = ctx.refExpr(lhs.X) } if ok { fieldName := lhs.Sel.Name return coq.NewAnon(coq.NewCallExpr(coq.GallinaIdent(""struct.storeF""), coq.StructDesc(info.name), coq.GallinaString(fieldName), structExpr, rhs)) } ctx.unsupported(s, ""assigning to field of non-struct type %v"", ty) default: ctx.unsupported(s, ""assigning to complex expression"") } return coq.Binding{} }" = true.
+    "{ switch lhs := lhs.(type) { case *ast.Ident: if lhs.Name == ""_"" { return coq.NewAnon(rhs) } if ctx.isPtrWrapped(lhs) { return ctx.pointerAssign(lhs, rhs) } ctx.unsupported(s, ""variable %s is not assignable\n\t(declare it with 'var' to pointer-wrap in GooseLang and support re-assignment)"", lhs.Name) case *ast.IndexExpr: targetTy := ctx.typeOf(lhs.X) switch targetTy := targetTy.(type) { case *types.Slice: value := rhs return coq.NewAnon(coq.NewCallExpr( coq.GallinaIdent(""SliceSet""), ctx.coqTypeOfType(lhs, targetTy.Elem()), ctx.expr(lhs.X), ctx.expr(lhs.Index), value)) case *types.Map: value := rhs return coq.NewAnon(coq.NewCallExpr( coq.GallinaIdent(""MapInsert""), ctx.expr(lhs.X), ctx.expr(lhs.Index), value)) default: ctx.unsupported(s, ""index update to unexpected target of type %v"", targetTy) } case *ast.StarExpr: info, ok := ctx.getStructInfo(ctx.typeOf(lhs.X)) if ok && info.throughPointer { ctx.dep.addDep(info.name) return coq.NewAnon(coq.NewCallExpr(coq.GallinaIdent(""struct.store""), coq.StructDesc(info.name), ctx.expr(lhs.X), rhs)) } dstPtrTy, ok := ctx.typeOf(lhs.X).Underlying().(*types.Pointer) if !ok { ctx.unsupported(s, ""could not identify element type of assignment through pointer"") } return coq.NewAnon(coq.StoreStmt{ Dst: ctx.expr(lhs.X), Ty: ctx.coqTypeOfType(s, dstPtrTy.Elem()), X: rhs, }) case *ast.SelectorExpr: ty := ctx.typeOf(lhs.X) info, ok := ctx.getStructInfo(ty) var structExpr coq.Expr if info.throughPointer { structExpr = ctx.expr(lhs.X) } else { if x, isIdent := lhs.X.(*ast.Ident); isIdent && ok && !ctx.isPtrWrapped(x) { ctx.unsupported(s, ""variable %s is not assignable\n\t(declare it with 'var' to pointer-wrap in GooseLang and support re-assignment)"", x.Name) } structExpr = ctx.refExpr(lhs.X) } if ok { fieldName := lhs.Sel.Name ctx.dep.addDep(info.name) return coq.NewAnon(coq.NewCallExpr(coq.GallinaIdent(""struct.storeF""), coq.StructDesc(info.name), coq.GallinaString(fieldName), structExpr, rhs)) } ctx.unsupported(s, ""assigning to field of non-struct type %v"", ty) default: ctx.unsupported(s, ""assigning to complex expression"") } return coq.Binding{} }" = true.
 Proof. vm_compute. reflexivity. Qed.
 
 Example O01_body_goose_Ctx_pointerAssign :
@@ -149,7 +149,7 @@ Proof. vm_compute. reflexivity. Qed.
 Example O01_body_goose_Ctx_refExpr :
   has_body func_bodies "goose.Ctx.refExpr"
     "func(s ast.Expr) coq.Expr"
-    "{ switch s := s.(type) { case *ast.Ident: return coq.IdentExpr(s.Name) case *ast.SelectorExpr: ty := ctx.typeOf(s.X) info, ok := ctx.getStructInfo(ty) if !ok { ctx.unsupported(s, ""reference to selector from non-struct type %v"", ty) } fieldName := s.Sel.Name var structExpr coq.Expr if info.throughPointer { structExpr = ctx.expr(s.X) } else { structExpr = ctx.refExpr(s.X) } return coq.NewCallExpr(coq.GallinaIdent(""struct.fieldRef""), coq.StructDesc(info.name), coq.GallinaString(fieldName), structExpr) default: ctx.futureWork(s, ""reference to other types of expressions"") return nil } }" = true.
+    "{ switch s := s.(type) { case *ast.Ident: return coq.IdentExpr(s.Name) case *ast.SelectorExpr: ty := ctx.typeOf(s.X) info, ok := ctx.getStructInfo(ty) if !ok { ctx.unsupported(s, ""reference to selector from non-struct type %v"", ty) } fieldName := s.Sel.Name var structExpr coq.Expr if info.throughPointer { structExpr = ctx.expr(s.X) } else { structExpr = ctx.refExpr(s.X) } ctx.dep.addDep(info.name) return coq.NewCallExpr(coq.GallinaIdent(""struct.fieldRef""), coq.StructDesc(info.name), coq.GallinaString(fieldName), structExpr) default: ctx.futureWork(s, ""reference to other types of expressions"") return nil } }" = true.
 Proof. vm_compute. reflexivity. Qed.
 
 Example O01_body_goose_Ctx_returnExpr :
@@ -245,7 +245,7 @@ Proof. vm_compute. reflexivity. Qed.
 Example O01_body_goose_Ctx_derefExpr :
   has_body func_bodies "goose.Ctx.derefExpr"
     "func(e ast.Expr) coq.Expr"
-    "{ info, ok := ctx.getStructInfo(ctx.typeOf(e)) if ok && info.throughPointer { return coq.NewCallExpr(coq.GallinaIdent(""struct.load""), coq.StructDesc(info.name), ctx.expr(e)) } return coq.DerefExpr{ X: ctx.expr(e), Ty: ctx.coqTypeOfType(e, ptrElem(ctx.typeOf(e))), } }" = true.
+    "{ info, ok := ctx.getStructInfo(ctx.typeOf(e)) if ok && info.throughPointer { ctx.dep.addDep(info.name) return coq.NewCallExpr(coq.GallinaIdent(""struct.load""), coq.StructDesc(info.name), ctx.expr(e)) } return coq.DerefExpr{ X: ctx.expr(e), Ty: ctx.coqTypeOfType(e, ptrElem(ctx.typeOf(e))), } }" = true.
 Proof. vm_compute. reflexivity. Qed.
 
 Example O01_body_goose_Ctx_sliceExpr :
